@@ -12,6 +12,7 @@ V: RateLimitedIssuer.Evaluate on an honest request, on every single-bit change
    an AAD that leaves the request key out (the harness seals with go-hpke and
    signs with the ECDSA fork itself)."""
 import vlib
+from checks import neighbours_common as nb
 from checks import ages_common as ag
 from checks import verdicts_common as vc
 from checks import issuance_common as ic
@@ -22,7 +23,9 @@ def run(ctx):
     n, cases, kinds = ic.run(ctx, "C07", ["rl"])
     vn, vcases, vdepth = vc.run(ctx, ['rlissuer', 'rlorigins'])   # Verdicts.tla: every history of presentations on one long-lived object
     an, acases = ag.run(ctx, ['rlunreg'])   # Ages.tla: every schedule of phases on one long-lived object, each phase scaled to n operations
+    nn, ncases = nb.run(ctx)   # Neighbours.tla: every history of registrations, look-ups and requests on two issuers side by side
     return ctx.finish({
+        **nb.coverage(nn, ncases),
         **ag.coverage(an, acases),
         "traces_validated_against_impl": n,
         "evaluations": len(cases),
@@ -40,6 +43,8 @@ def run(ctx):
 
 
 def replay(ctx, path):
+    if vlib.json.load(open(path)).get("family") == "neighbours":
+        return nb.replay(ctx, path)
     if vlib.json.load(open(path)).get("family") == "ages":
         return ag.replay(ctx, path)
     if vlib.json.load(open(path)).get("family") == "verdicts":
